@@ -5,10 +5,21 @@ use crate::proto::*;
 use unic_langid::LanguageIdentifier;
 use unic_locale::{ExtensionsMap, Locale};
 
+/// The language subtag as text.  The empty language has two observers, `is_empty()` and the text `und`; a value on
+/// which they disagree (a stored `und`) is rendered so that it equals no rendering of the model.
+pub fn lang_text(l: &unic_langid::subtags::Language) -> String {
+    let t = esc(l.as_str().as_bytes());
+    if (l.as_str() == "und") != l.is_empty() {
+        format!("{}%21is_empty%3D{}", t, l.is_empty())
+    } else {
+        t
+    }
+}
+
 pub fn render_li(li: &LanguageIdentifier) -> String {
     format!(
         "l={};s={};r={};v={}",
-        esc(li.language.as_str().as_bytes()),
+        lang_text(&li.language),
         li.script.map_or("~".to_string(), |s| esc(s.as_str().as_bytes())),
         li.region.map_or("~".to_string(), |s| esc(s.as_str().as_bytes())),
         esc_list(li.variants().map(|v| v.as_str()))
